@@ -104,6 +104,19 @@ pub fn scenario(ctx: &Ctx, idx: u64, check: &'static str, stream: &'static str) 
             }
         }
         plans.sort_by_key(|p| (p.silent_at.is_some(), std::cmp::Reverse(p.silent_at)));
+        // A peer that goes silent may come back at another port under the same id (restart, NAT
+        // rebinding): the successor answers from the moment the old address falls silent. The old
+        // address is a silent contact like any other and must be purged on schedule.
+        let mut successors: Vec<(Id, SocketAddr, Micros)> = Vec::new();
+        for (i, p) in plans.iter().enumerate() {
+            if let Some(t) = p.silent_at {
+                if n <= 6 && t > 0 && rng.gen_bool(0.3) && successors.len() < 2 {
+                    let mut a = p.addr;
+                    a.set_port(p.addr.port() + 1000 + i as u16);
+                    successors.push((p.id, a, t));
+                }
+            }
+        }
 
         // Nodes the node under test first hears of in the middle of a search (named in get_peers
         // answers only) and that never answer anything: the search queries them in the very step
@@ -124,6 +137,14 @@ pub fn scenario(ctx: &Ctx, idx: u64, check: &'static str, stream: &'static str) 
                 w
             })
             .collect();
+        let mut nodes = nodes;
+        for (sid, saddr, from) in &successors {
+            let mut w = WNode::new(*sid, *saddr);
+            w.silent_from = 0;
+            w.silent_until = *from;
+            nodes.push(w);
+            report.count("peers_that_move_to_another_port_keeping_their_id");
+        }
         let mut world = World::new(nodes);
         world.keep_served = false;
         world.omit_silent = rng.gen_bool(0.5);
@@ -131,11 +152,16 @@ pub fn scenario(ctx: &Ctx, idx: u64, check: &'static str, stream: &'static str) 
         for (gid, gaddr) in &search_only {
             plans.push(ContactPlan { id: *gid, addr: *gaddr, silent_at: Some(0), query_every: 0, unsendable: false });
         }
-        let owned: HashSet<SocketAddr> = plans.iter().map(|p| p.addr).collect();
+        let owned: HashSet<SocketAddr> = plans.iter().map(|p| p.addr).chain(successors.iter().map(|(_, a, _)| *a)).collect();
         net.add_actor(move |a| owned.contains(a), world);
         let max_lat = *[10 * MS, 100 * MS, 240 * MS].choose(&mut rng).unwrap();
         {
-            let link = Link::uniform(MS, max_lat);
+            let mut link = Link::uniform(MS, max_lat);
+            if !long_run {
+                // the node's own sends fail now and then (C10 node level only; C11's premise is a
+                // loss-free network)
+                link.fail_p = *[0.0, 0.0, 0.1, 0.4].choose(&mut rng).unwrap();
+            }
             let unsendable: Vec<(SocketAddr, Micros)> = plans.iter().filter(|p| p.unsendable).filter_map(|p| p.silent_at.map(|t| (p.addr, t))).collect();
             report.add("contacts_unsendable_once_silent", unsendable.len() as u64);
             net.set_fault(Box::new(move |rng, meta| {
@@ -193,6 +219,19 @@ pub fn scenario(ctx: &Ctx, idx: u64, check: &'static str, stream: &'static str) 
                         }
                     };
                     net2.send_from(from, addr, Krpc::query(n.to_be_bytes(), pid, q).encode());
+                }
+            });
+        }
+        for (sid, saddr, from) in successors.clone() {
+            let net2 = net.clone();
+            let mut qrng = ChaCha8Rng::seed_from_u64(seed ^ saddr.port() as u64 ^ 0x5acc);
+            tokio::spawn(async move {
+                sleep_us(from).await;
+                let mut k = 0u32;
+                loop {
+                    sleep_us(qrng.gen_range(20 * SEC..4 * MIN)).await;
+                    k += 1;
+                    net2.send_from(saddr, addr, Krpc::query(k.to_be_bytes(), sid, Query::Ping).encode());
                 }
             });
         }
@@ -301,6 +340,8 @@ pub fn scenario(ctx: &Ctx, idx: u64, check: &'static str, stream: &'static str) 
             let mut from_c: Vec<Micros> = Vec::new();
             // surely accepted answers
             let mut accepted: Vec<Micros> = Vec::new();
+            // queries from the contact delivered to a serving node
+            let mut queries_from_c: Vec<Micros> = Vec::new();
             // queries the node sent to the contact: (t, tid, target)
             let mut to_c: Vec<(Micros, Vec<u8>, Option<Id>)> = Vec::new();
             // search queries (get_peers / announce_peer) the node sent to the contact
@@ -341,7 +382,10 @@ pub fn scenario(ctx: &Ctx, idx: u64, check: &'static str, stream: &'static str) 
                                     }
                                 }
                             }
-                            Body::Query { .. } if serving => from_c.push(w.t),
+                            Body::Query { .. } if serving => {
+                                from_c.push(w.t);
+                                queries_from_c.push(w.t);
+                            }
                             _ => {}
                         }
                     }
@@ -353,6 +397,24 @@ pub fn scenario(ctx: &Ctx, idx: u64, check: &'static str, stream: &'static str) 
                 }
             }
 
+            // A query from a contact that is surely good at that moment (an accepted answer, or an
+            // earlier such query, less than 15 minutes before) surely counts: the contact is in the
+            // table and not dropped, so it stays good for 15 more minutes - whether or not the reply
+            // to that query could be sent.
+            {
+                let mut sure: Vec<Micros> = accepted.clone();
+                sure.sort();
+                let mut qs = queries_from_c.clone();
+                qs.sort();
+                for q in qs {
+                    let i = sure.partition_point(|x| *x <= q);
+                    if i > 0 && q + EPS < sure[i - 1] + FIFTEEN_MIN {
+                        sure.insert(i, q);
+                        report.count("node_queries_from_a_surely_good_contact");
+                    }
+                }
+                accepted = sure;
+            }
             // --- C10 must-not-be-good / must-be-good / dropped, C11 intervals
             let last_before = |v: &Vec<Micros>, t: Micros| -> Option<Micros> {
                 let i = v.partition_point(|x| *x <= t);
@@ -471,7 +533,7 @@ pub fn scenario(ctx: &Ctx, idx: u64, check: &'static str, stream: &'static str) 
                                 "C10",
                                 "not-good-after-answer",
                                 format!(
-                                    "contact {} answered a refresh/bootstrap query at {} s but is reported {:?} at {} s",
+                                    "contact {} answered a refresh/bootstrap query (or, being good, queried the node) at {} s but is reported {:?} at {} s",
                                     p.addr,
                                     a / SEC,
                                     seen,
